@@ -329,7 +329,91 @@ def run_manual(case):
             "outcome": "manual-ok" if not fails else "FAIL", "fails": fails}
 
 
+# ---------------------------------------------------------------- acknowledge_until() / snooze_until() called directly
+CALL_DELTAS = (timedelta(hours=-5), timedelta(hours=-3), timedelta(minutes=-90), timedelta(seconds=-1), timedelta(0), timedelta(seconds=1),
+               timedelta(minutes=90), timedelta(hours=3), timedelta(hours=5))
+CALL_FORMS = ("naive", "aware-utc", "zoned", "zoned-ny")
+CALL_LOCALS = ("unset", "berlin-name", "ny-object", "utc-name")
+
+
+def run_calls(case):
+    """('k', provider, trigger kind, local zone, local set before/after the call, op, value form, delta index | 'date0' | 'date1').
+    Documented: the argument is a time in UTC - a value without tzinfo is read as UTC (a date: its midnight in UTC), whatever
+    local time zone the Alarms object was given for FLOATING TRIGGERS; aware values count as their instant."""
+    _, provider, tkind, local, order, op, form, di = case
+    env.use_provider(provider)
+    fails = []
+    T = datetime(2024, 6, 1, 10, 0, tzinfo=UTC)
+    comp = Event()
+    comp.add("uid", "k")
+    if tkind == "utc":
+        comp.start = T
+    else:  # floating 12:00 read in Europe/Berlin (CEST) = 10:00 UTC; needs a local zone
+        comp.start = datetime(2024, 6, 1, 12, 0)
+    al = Alarm()
+    al.add("action", "DISPLAY")
+    al.TRIGGER = timedelta(0)
+    comp.add_component(al)
+    if di == "date0":
+        v, inst_v = date(2024, 6, 1), datetime(2024, 6, 1, tzinfo=UTC)
+    elif di == "date1":
+        v, inst_v = date(2024, 6, 2), datetime(2024, 6, 2, tzinfo=UTC)
+    else:
+        inst_v = T + CALL_DELTAS[di]
+        if form == "naive":
+            v = inst_v.replace(tzinfo=None)
+        elif form == "aware-utc":
+            v = inst_v
+        elif form == "zoned":
+            v = inst_v.astimezone(tzp.timezone(LOCAL_ZONE))
+        else:
+            v = inst_v.astimezone(tzp.timezone("America/New_York"))
+
+    def set_local(alarms):
+        if local == "berlin-name":
+            alarms.set_local_timezone(LOCAL_ZONE)
+        elif local == "ny-object":
+            alarms.set_local_timezone(tzp.timezone("America/New_York"))
+        elif local == "utc-name":
+            alarms.set_local_timezone("UTC")
+    T_eff = T
+    if tkind == "floating":
+        T_eff = {"berlin-name": T, "ny-object": datetime(2024, 6, 1, 16, 0, tzinfo=UTC), "utc-name": datetime(2024, 6, 1, 12, 0, tzinfo=UTC)}[local]
+        if di not in ("date0", "date1"):
+            inst_v = inst_v + (T_eff - T)
+            v = v + (T_eff - T)
+    ack0 = T_eff + timedelta(hours=1)
+    if op == "ack":
+        want_active, want_trigger = M.is_active(T_eff, None, inst_v, None), T_eff
+    else:
+        want_active = M.is_active(T_eff, None, ack0, inst_v)
+        want_trigger = M.effective_trigger(T_eff, inst_v)
+    try:
+        alarms = Alarms(comp)
+        alarms.acknowledge_until(None)  # the component's DTSTAMP is absent anyway
+        if order == "before":
+            set_local(alarms)
+        if op == "ack":
+            alarms.acknowledge_until(v)
+        else:
+            alarms.acknowledge_until(ack0)
+            alarms.snooze_until(v)
+        if order == "after":
+            set_local(alarms)
+        t = alarms.times[0]
+        got = (t.is_active(), t.trigger.astimezone(UTC), len(alarms.active) == 1)
+    except Exception as e:  # noqa: BLE001
+        got = f"{type(e).__name__}: {e}"
+    want = (want_active, want_trigger, want_active)
+    if got != want:
+        fails.append(fail(f"direct-call:{op}:{form if isinstance(di, int) else 'date'}-value", case, repr(want), repr(got), 0))
+    return {"state": ("calls",) + tuple(case[1:]) + (repr(got),), "trans": 4, "nontrivial": True,
+            "outcome": "calls-ok" if not fails else "FAIL", "fails": fails}
+
+
 def replay(case):
+    if case[0] == "k":
+        return run_calls(case[:8])
     if case[0] == "m":
         return run_manual(case[:5])
     return run_case(case[:9], case[9] if len(case) > 9 else None)
@@ -360,6 +444,22 @@ def run(ctx):
                                     yield ("r", provider, path, kind, local, "tb", c_i, s_i, nal)
 
     ctx.explore("decision-table rows", gen, run_case)
+
+    def gen_calls():
+        for provider in env.PROVIDERS:
+            for tkind in ("utc", "floating"):
+                for local in CALL_LOCALS:
+                    if tkind == "floating" and local == "unset":
+                        continue
+                    for order in ("before", "after"):
+                        for op in ("ack", "snooze"):
+                            for form in CALL_FORMS:
+                                for di in range(len(CALL_DELTAS)):
+                                    yield ("k", provider, tkind, local, order, op, form, di)
+                            for di in ("date0", "date1"):
+                                yield ("k", provider, tkind, local, order, op, "date", di)
+
+    ctx.explore("acknowledge_until / snooze_until called directly", gen_calls, run_calls)
 
     def gen_manual():
         for provider in env.PROVIDERS:
